@@ -159,6 +159,7 @@ func (q *UdpTaskQueue) convoy() {
 	defer timer.Stop()
 
 	for {
+		verifYield("convoy.top", q)
 		if task, ok := q.popReadyTask(); ok {
 			q.executeTask(task, timer)
 			continue
@@ -173,6 +174,7 @@ func (q *UdpTaskQueue) convoy() {
 				return
 			}
 		case <-timer.C:
+			verifYield("convoy.timer", q)
 			// Idle GC: only remove queue when no in-flight EmitTask and no pending tasks.
 			// Use atomic checks first to avoid lock contention.
 			if q.refs.Load() > 0 || len(q.ch) > 0 || q.overflowLen.Load() > 0 {
@@ -180,20 +182,24 @@ func (q *UdpTaskQueue) convoy() {
 				continue
 			}
 
+			verifYield("convoy.checked", q)
 			// CAS refs to lock out new acquireQueue and avoid time.Sleep
 			if !q.refs.CompareAndSwap(0, -1000000) {
 				q.safeTimerReset(timer)
 				continue
 			}
 
+			verifYield("convoy.claimed", q)
 			// Try to delete from pool using CAS-like semantics via sync.Map
 			if q.p.tryDeleteQueue(q.key, q) {
+				verifYield("convoy.recycle", q)
 				q.p.queueChPool.Put(q.ch)
 				return
 			}
 			// Check if mapping still points to current queue.
 			// If not, this convoy is stale and must exit to prevent goroutine leak.
 			if v, ok := q.p.queues.Load(q.key); !ok || v.(*UdpTaskQueue) != q {
+				verifYield("convoy.recycle", q)
 				q.p.queueChPool.Put(q.ch)
 				return
 			}
@@ -225,7 +231,9 @@ func (p *UdpTaskPool) EmitTask(key UdpFlowKey, task UdpTask) {
 	if q == nil {
 		return
 	}
+	verifYield("emit.enqueue", q)
 	q.enqueue(task)
+	verifYield("emit.release", q)
 	q.refs.Add(-1)
 }
 
@@ -237,6 +245,7 @@ func (p *UdpTaskPool) acquireQueue(key UdpFlowKey) *UdpTaskQueue {
 	// Fast path: check if queue exists without any lock contention
 	if v, ok := p.queues.Load(key); ok {
 		q := v.(*UdpTaskQueue)
+		verifYield("acquire.loaded", q)
 		for {
 			refs := q.refs.Load()
 			if refs < 0 {
@@ -249,6 +258,7 @@ func (p *UdpTaskPool) acquireQueue(key UdpFlowKey) *UdpTaskQueue {
 	}
 
 createNew:
+	verifYield("acquire.create", nil)
 
 	// Slow path: create new queue using LoadOrStore to avoid race condition
 	ch := p.queueChPool.Get().(chan UdpTask)
@@ -260,12 +270,14 @@ createNew:
 		agingTime: UdpTaskPoolAgingTime,
 	}
 
+	verifYield("acquire.store", newQ)
 	// LoadOrStore ensures atomic create-or-get semantics without explicit locks
 	actual, loaded := p.queues.LoadOrStore(key, newQ)
 	if loaded {
 		// Another goroutine created the queue first, put our channel back
 		p.queueChPool.Put(ch)
 		q := actual.(*UdpTaskQueue)
+		verifYield("acquire.loaded2", q)
 		for {
 			refs := q.refs.Load()
 			if refs < 0 {
